@@ -18,7 +18,15 @@ package database
 //@ ensures[C36:error-path-releases] err != nil && result_of(db.BeginTx, 1) == nil ==> called(tx.Rollback)
 //@ ensures[C36:no-readers-releases] err == nil && len(result) == 0 ==> called(tx.Rollback)
 //@ ensures[C36:open-readers-keep-tx] err == nil && len(result) > 0 ==> !called(tx.Rollback)
-//@ effect[C36:every-reader-hooked] every ioutils.NewReadCloserWithCloseHook(_, $hook) where $hook != nil
+//@ effect[C36:every-reader-hooked] every ioutils.NewReadCloserWithCloseHook($r, $hook) where $hook != nil && $r == readers[i]
+
+// All orders of reads, closes and repeated closes over 1-4 readers (ghost scenario on the real WithTxReadClosers with
+// a do-nothing database/sql driver; bounded random search, stand-in: the counter is shared between closures that run
+// after the function returned, which the contracts above state only per closure).
+//@ func verifReadersHoldTheTransaction
+//@ mode nosafety
+//@ bounded 3000
+//@ ensures[C36:released-exactly-once-by-the-last-close] result
 
 // C03. The transaction controller is what makes a failed operation traceless: whatever the operation staged outside
 // the database (part files published or renamed by pre-commit hooks) is undone by the rollback hooks, and an error is
